@@ -88,6 +88,11 @@ m('own-C11-leak-required-on-error-path', 'C11', 'C _lookup forgets Py_DECREF(req
   [(C, "        if (result == NULL) {\n            Py_DECREF(cache);\n            Py_DECREF(required);\n            return NULL;\n        }\n        status = PyDict_SetItem(cache, key, result);",
        "        if (result == NULL) {\n            Py_DECREF(cache);\n            return NULL;\n        }\n        status = PyDict_SetItem(cache, key, result);")])
 
+m('revert-F14-leak-required-on-failed-cache-probe', 'C11', 'C _lookupAll returns without releasing the required tuple when the cache probe fails (defect F14)',
+  [(C, "    cache = _subcache(self->_mcache, provided);\n    if (cache == NULL) {\n        Py_DECREF(required);\n        return NULL;\n    }", "    cache = _subcache(self->_mcache, provided);\n    if (cache == NULL)\n        return NULL;")])
+m('revert-F11c-swallowed-hash-error-in-lookup', 'C10', 'C _lookup cache probe swallows the error from hashing the key (defect F11c)',
+  [(C, "    result = PyDict_GetItemWithError(cache, key);\n    if (result == NULL && PyErr_Occurred()) {\n        /* e.g. an unhashable element of `required` */\n        Py_DECREF(required);\n        return NULL;\n    }\n", "    result = PyDict_GetItem(cache, key);\n")])
+
 def sh(*a, **k):
     return subprocess.run(a, capture_output=True, text=True, **k)
 
